@@ -62,6 +62,8 @@ def cells(tier):
             out.append({'kind': 'inject', 'backend': b, 'K': 40})
         out.append({'kind': 'flush', 'backend': 'dict', 'msgs': 2})
         out.append({'kind': 'flush', 'backend': 'redis', 'msgs': 1})
+        out.append({'kind': 'loadann', 'backend': 'redis', 'K': 16})
+        out.append({'kind': 'loadann', 'backend': 'disk', 'K': 40})
         # bounded store pools
         out.append({'kind': 'retry', 'backend': 'dict', 'msgs': 2, 'fails': 1,
                     'store_pool': 1})
@@ -89,6 +91,9 @@ def cells(tier):
             out.append({'kind': 'flush', 'backend': b, 'msgs': 2})
             if b != 'dict':
                 out.append({'kind': 'inject', 'backend': b, 'K': 80})
+            if b in ('redis', 'disk'):
+                out.append({'kind': 'loadann', 'backend': b, 'K': 80,
+                            'extra': 4})
         # ~6e5 paths each: split over 32 processes by decision prefix
         for b in ('dict', 'redis'):
             out = api.shards({'kind': 'retry', 'backend': b, 'msgs': 2,
@@ -417,6 +422,60 @@ def run_inject(cell):
     left = w.stored_ids()
     api.prove(len(calls) >= 3 and ids['m0'] not in left, 'message-forgotten',
               attempts=len(calls), **info)
+
+
+def run_loadann(cell):
+    """start-up load over E+1 stored messages; inside its k-th storage
+    operation (every k) the LAST listed message - due at once, failing once -
+    is announced through wait(): it is attempted, re-queued for later, and
+    then its (stale) start-up listing entry arrives"""
+    import gevent
+    import pickle
+    backend = cell['backend']
+    w = World(cell, lambda tag: 1 if tag == 'm0' else 0)
+    store = w.store
+    ids = {}
+    announce = []
+
+    def prep():
+        for i in range(cell.get('extra', 2)):
+            tag = 'x%d' % i
+            ids[tag] = store.write(qc.make_envelope(tag, 's@z', ['a@x']),
+                                   1000 + i)
+        ids['m0'] = store.write(qc.make_envelope('m0', 's@z', ['a@x']), 0)
+    gevent.spawn(prep)
+    qc.run_until_quiescent()
+    if backend == 'redis':
+        # announcements left over from the writes above are not wanted here
+        w.sub.lists.pop(store.queue_key, None)
+    if backend in ('dict', 'disk'):
+        from gevent.event import Event
+        gate = Event()
+
+        def wait():
+            gate.wait()
+            gate.clear()
+            out, announce[:] = list(announce), []
+            return out
+        store.wait = wait
+    k = api.choice('k', cell['K'])
+
+    def event():
+        if backend in ('dict', 'disk'):
+            announce.append((0, ids['m0']))
+            gate.set()
+        else:
+            w.sub.lists.setdefault(store.queue_key, []).append(
+                pickle.dumps((0, ids['m0'])))
+            w.sub._wake()
+    qc.INJECT[qc.YIELDS[0] + k] = event
+    w.queue.start()
+    qc.run_until_quiescent()
+    w.queue.kill()
+    info = dict(backend=backend, kind='loadann', k=k)
+    api.observe('calls', [[c['tag'], c['attempts']] for c in w.relay.calls])
+    w.check_not_early(info, ids)
+    w.check_not_forgotten(info, ids)
 
 
 def classify(cell, inputs, failure):
